@@ -35,7 +35,7 @@ func main() {
 	runner.Main(runner.Config{
 		ID:    "C05",
 		Level: "fault_enumeration",
-		Rule:  "fault enumeration over 5 builds (a file that repeats its blocks, nested directories, symlinks to a file / to a directory / inside a sub-directory, empty directories, empty files, files of 1, 6, B-1, B, B+1, B+100, 2B, 2B+100, 3B bytes incl. zero-filled ones; B=64KiB). Catalogue per signed entry: Flip(file,off), Collide(file,block) (two bit flips 32768 bytes apart that keep the weak checksum of the block), Truncate(file,len), Empty(file), Extend(file,n,rand|zero), Fill(emptyFile,n), Delete(path), Kind(path -> file | dir with child | dangling symlink | symlink to an identical twin), Retarget(symlink); off/len from {0,1,size-1,size} and {kB-1,kB,kB+1} for every block boundary (a superset of {0,1,B-1,B,B+1,size-1,size}); n from {1,B-1,B,B+1,2B+1}. Plus a long-runs family: 70- and 132-block files with 1..130 consecutive damaged blocks at several phases (contiguous damage beyond the 4MiB wound aggregation limit). Enumerated: the undamaged copy, every single damage, every pair of damages on two distinct entries, every pair (content damage, length change) on ONE regular file with the altered byte inside what is left of it (sub-check same-file) and, in the thorough tier, every triple on three distinct entries (descendant before ancestor). Each damaged copy is validated twice by the real ValidatorContext: with WoundsPath (the .pww file is decoded by the harness' own decoder) and with FailFast, each under a 120 s watchdog. Oracle: Lstat/ReadFile comparison of the damaged directory with the pristine build, per signed entry. Non-trivial = at least one signed file is still a regular file but differs in bytes or length (the streaming block check decides, not the lstat pass).",
+		Rule:  "fault enumeration over 6 builds (a file that repeats its blocks, unusual names and permission bits, nested directories, symlinks to a file / to a directory / inside a sub-directory, empty directories, empty files, files of 1, 6, B-1, B, B+1, B+100, 2B, 2B+100, 3B bytes incl. zero-filled ones; B=64KiB). Catalogue per signed entry: Flip(file,off), Collide(file,block) (two bit flips 32768 bytes apart that keep the weak checksum of the block), Truncate(file,len), Empty(file), Extend(file,n,rand|zero), Fill(emptyFile,n), Delete(path), Kind(path -> file | dir with child | dangling symlink | symlink to an identical twin), Retarget(symlink); off/len from {0,1,size-1,size} and {kB-1,kB,kB+1} for every block boundary (a superset of {0,1,B-1,B,B+1,size-1,size}); n from {1,B-1,B,B+1,2B+1}. Plus a long-runs family: 70- and 132-block files with 1..130 consecutive damaged blocks at several phases (contiguous damage beyond the 4MiB wound aggregation limit). Enumerated: the undamaged copy, every single damage, every pair of damages on two distinct entries, every pair (content damage, length change) on ONE regular file with the altered byte inside what is left of it (sub-check same-file) and, in the thorough tier, every triple on three distinct entries (descendant before ancestor). Each damaged copy is validated twice by the real ValidatorContext: with WoundsPath (the .pww file is decoded by the harness' own decoder) and with FailFast, each under a 120 s watchdog. Oracle: Lstat/ReadFile comparison of the damaged directory with the pristine build, per signed entry. Non-trivial = at least one signed file is still a regular file but differs in bytes or length (the streaming block check decides, not the lstat pass).",
 		Assumptions: []string{
 			"damage sequences longer than 2 (quick) / 3 (thorough) are not enumerated",
 			"flips change one bit (0x01) of the chosen byte; appended content is seeded pseudo-random or zeros",
@@ -56,6 +56,9 @@ func builds() []wh.Build {
 		// repeated blocks inside one file and across two files (a damaged block then has a
 		// neighbour with the same rolling checksum and length)
 		{wh.F("rep", "L.L.M.M/300"), wh.F("rep2", "M/300"), wh.F("s", "=s")},
+		// unusual names and permission bits
+		{wh.FM("ro", "N/100", 0o444), wh.FM("priv/x", "=p", 0o600), wh.FM("exe", "=#!", 0o700), wh.F("saves../slot1", "=s1"), wh.F("Case/x", "=1"),
+			wh.F("case/x", "=2"), wh.F("case/X", ""), wh.F("a b/c d", "O/65535"), wh.L("Case/l", "../case/x")},
 	}
 }
 
